@@ -19,6 +19,9 @@ Parts (every script line goes through both sides and is compared line by line):
                must give the same tree - strings and structure exactly, every finite double bit for bit (F65
                regression; only an infinity produced by strtod overflow may come back as `null`) - consume the
                whole text and print to the same text
+  reference    every input that is strict RFC 8259 JSON (Python's json, duplicates kept) must be accepted and read to the
+               same tree: strings byte for byte (all \\u escapes, surrogate pairs), structure, doubles; every returned
+               tree is nested at most CJSON_NESTING_LIMIT deep
   numbers      directed doubles (1-ulp neighbours of short decimals, extremes, -0.0) and random ones: print_number's
                text must be a complete number token and strtod of it must be the identical double
 
@@ -31,6 +34,7 @@ Classification of a difference (WORKERS.md step 3):
 """
 import concurrent.futures
 import itertools
+import json
 import os
 import re
 import struct
@@ -64,13 +68,17 @@ def _asan_summary(err):
                                 "<-".join(fr)] if x)[:400]
 
 
-def run_harness_chunk(binp, lines):
-    """Runs the lines; a sanitizer abort at line k is recorded as `SAN <summary>` and the script goes on behind it."""
+MAX_ABORTS_PER_CHUNK = 12
+
+
+def run_harness_chunk(binp, lines, max_aborts=MAX_ABORTS_PER_CHUNK):
+    """Runs the lines; a sanitizer abort at line k is recorded as `SAN <summary>` and the script goes on behind it.
+    After `max_aborts` aborts the rest of the chunk is not run (`SKIP`): the failing inputs are already in hand."""
     res = []
     i = 0
     env = {"ASAN_OPTIONS": "detect_leaks=1:abort_on_error=0:allocator_may_return_null=1",
            "UBSAN_OPTIONS": "print_stacktrace=1"}
-    guard = 0
+    aborts = 0
     while i < len(lines):
         rc, out, err = C.sh([binp], inp=("\n".join(lines[i:]) + "\n").encode(), env=env, timeout=1200)
         got = out.splitlines()
@@ -83,9 +91,10 @@ def run_harness_chunk(binp, lines):
         res += got
         res.append("SAN " + (_asan_summary(err) or ("rc=%d %s" % (rc, err[-200:].replace("\n", " ")))))
         i = len(res)
-        guard += 1
-        if guard > 5000:
-            raise RuntimeError("harness keeps dying: " + err[-500:])
+        aborts += 1
+        if aborts >= max_aborts:
+            res += ["SKIP"] * (len(lines) - i)
+            return res
     return res
 
 
@@ -125,6 +134,8 @@ def canon_d(line):
 
 
 def same(dl, hl):
+    if hl == "SKIP":
+        return True
     hc, _ = canon_h(hl)
     if hc.startswith("SAN"):
         return dl.startswith("OOB")
@@ -549,6 +560,81 @@ def outcome_kind(inp, dline):
     return "rejected_at_%s%s" % (k, "_end_of_input" if at_end else "")
 
 
+# --------------------------------------------------------------------------- reference reader (strict JSON, RFC 8259)
+
+_LONG_NUMBER = re.compile(rb"[-+0-9.eE]{64,}")
+
+
+class _Skip(Exception):
+    pass
+
+
+def _no_const(x):
+    raise _Skip()
+
+
+def ref_tree(inp, limit):
+    """strict RFC 8259 reading of `inp` with Python's json (duplicates kept, strings as UTF-8 bytes cut at the first
+    NUL as C sees them, numbers as double bits); None when the text is not strict JSON or outside what can be compared
+    (not UTF-8, lone surrogates, nesting beyond the limit, integers beyond the double range)"""
+    if _LONG_NUMBER.search(inp):
+        return None                  # parse_number copies at most 63 bytes: longer literals are split (documented limit)
+    try:
+        txt = inp.decode("utf-8")
+        v = json.loads(txt, object_pairs_hook=lambda ps: ("o", ps), parse_constant=_no_const, parse_int=float,
+                       parse_float=float)
+    except (ValueError, RecursionError, _Skip):
+        return None
+
+    def cs(x):
+        b = x.encode("utf-8")          # raises on lone surrogates
+        k = b.find(b"\x00")
+        return hx(b if k < 0 else b[:k])
+
+    def conv(x, d):
+        if x is None:
+            return ("n",)
+        if x is True:
+            return ("t",)
+        if x is False:
+            return ("f",)
+        if isinstance(x, (int, float)):
+            f = float(x)
+            return ("N", struct.unpack(">Q", struct.pack(">d", f))[0])
+        if isinstance(x, str):
+            return ("s", cs(x))
+        if d >= limit:
+            raise _Skip()            # deeper than CJSON_NESTING_LIMIT: refused by design
+        if isinstance(x, list):
+            return ("a", tuple(conv(y, d + 1) for y in x))
+        return ("o", tuple((cs(k), conv(y, d + 1)) for k, y in x[1]))
+    try:
+        return conv(v, 0)
+    except UnicodeEncodeError:
+        return "LONE_SURROGATE"      # \\u escapes that do not form Unicode scalar values
+    except (OverflowError, _Skip, RecursionError):
+        return None
+
+
+def strip_tokens(t):
+    """dump tree -> comparable with ref_tree (numbers by bits)"""
+    if t[0] == "N":
+        return ("N", t[2])
+    if t[0] == "a":
+        return ("a", tuple(strip_tokens(x) for x in t[1]))
+    if t[0] == "o":
+        return ("o", tuple((k, strip_tokens(v)) for k, v in t[1]))
+    return t
+
+
+def tree_depth(t):
+    if t[0] == "a":
+        return 1 + max([tree_depth(x) for x in t[1]] or [0])
+    if t[0] == "o":
+        return 1 + max([tree_depth(v) for _, v in t[1]] or [0])
+    return 0
+
+
 # --------------------------------------------------------------------------- shrinking / classification
 
 def shrink(inp, bad):
@@ -588,6 +674,9 @@ class Tie:
         self.rt_inexact_numbers = 0
         self.rt_null_numbers = 0
         self.rt_examples = {}
+        self.ref_checked = 0
+        self.ref_budget = 1
+        self.limit = 1000
 
     def one(self, line, drv_args=()):
         d, h, _ = run_both(self.binp, [line], drv_args)
@@ -632,6 +721,10 @@ class Tie:
         """run and compare; returns list of (line, driver line, harness line)"""
         if not lines:
             return []
+        if self.san >= 40:
+            # the implementation aborts all over the place: the failing inputs are reported, do not grind on
+            self.cov["cjson_stopped_early_after_sanitizer_reports"] = self.san
+            return []
         d, h, notes = run_both(self.binp, lines, drv_args)
         self.lines += len(lines)
         self.cov["cjson_lines_" + part] = self.cov.get("cjson_lines_" + part, 0) + len(lines)
@@ -641,6 +734,8 @@ class Tie:
                 self.san += 1
             if hl.startswith("SAN") or not same(dl, hl):
                 self.report(part, ln, dl, hl)
+            if ln.startswith("p ") and not hl.startswith("SAN") and hl != "SKIP":
+                self.impl_clauses(part, ln, hl)
             if hist and ln.startswith("p "):
                 k = outcome_kind(C.unhex(ln[2:]), dl)
                 self.hist[k] = self.hist.get(k, 0) + 1
@@ -650,6 +745,34 @@ class Tie:
         if len(self.samples) < 12:
             self.samples += [ln for ln in lines[:: max(1, len(lines) // 3)]][:3]
         return res
+
+    # ---- clauses on the implementation alone, per input
+    def impl_clauses(self, part, ln, hl):
+        inp = C.unhex(ln[2:])
+        ok = hl.startswith("ok ")
+        tree = None
+        if ok:
+            tree = parse_dump(canon_h(hl)[0].split(" ")[2:])[0]
+            # the nesting limit holds on what the real parser returns
+            if len(inp) > 2 * self.limit and tree_depth(tree) > self.limit:
+                self.rt_fail(part, ln, hl, "nesting limit: the parser returned a tree nested %d deep (CJSON_NESTING_LIMIT = %d)" % (
+                    tree_depth(tree), self.limit), clause="C06: recursion of the parser is bounded by CJSON_NESTING_LIMIT")
+        # strict JSON must be read as the reference reader reads it (strings incl. every \u escape, structure, doubles)
+        if self.ref_budget > 0 and len(inp) <= 4096:
+            ref = ref_tree(inp, self.limit)
+            if ref == "LONE_SURROGATE":
+                self.ref_checked += 1
+                if ok:
+                    self.rt_fail(part, ln, hl, "lone / reversed / unpaired \\u surrogate accepted (would be stored as ill-formed UTF-8)",
+                                 clause="C01/C02 + RFC 3629: \\uD800..DFFF escapes that do not form a surrogate pair are refused")
+            elif ref is not None:
+                self.ref_checked += 1
+                if not ok:
+                    self.rt_fail(part, ln, hl, "a strict RFC 8259 text is rejected", clause="C02: every JSON-RPC message is read")
+                elif strip_tokens(tree) != ref:
+                    self.rt_fail(part, ln, hl, "a strict RFC 8259 text is read differently from the reference reader "
+                                 "(strings / \\u escapes / structure / doubles)",
+                                 clause="C01/C02: values are what the JSON text denotes (RFC 8259 section 7/8, RFC 3629)")
 
     # ---- the property on the implementation alone: parse o print o parse
     def roundtrip(self, part, triples):
@@ -675,6 +798,10 @@ class Tie:
         self.cov["cjson_lines_roundtrip"] = self.cov.get("cjson_lines_roundtrip", 0) + len(lines)
         for t, ln2, dl, hl in zip(texts, lines, d, h):
             src, tree1 = first[t]
+            if hl == "SKIP" or hl.startswith("SAN"):
+                if hl.startswith("SAN"):
+                    self.report(part + "/reparse", ln2, dl, hl)
+                continue
             if not same(dl, hl):
                 self.report(part + "/reparse", ln2, dl, hl)
                 continue
@@ -704,16 +831,17 @@ class Tie:
                     self.rt_fail(part, src, hl, "number-print-not-bit-exact: double %x comes back as %s (printed %s)" % (
                         a, "null" if b is None else "%x" % b, t))
 
-    def rt_fail(self, part, src_line, hl, what):
+    def rt_fail(self, part, src_line, hl, what, clause=None):
         self.diffs += 1
         if self.reported >= 6:
             return
         self.reported += 1
-        self.out.violation("cJSON: value does not survive print then parse", {
+        self.out.violation("cJSON: property clause fails on the real parser/printer: " + what[:90], {
             "property": self.out.prop_id, "component": "cjson", "part": part, "seed": C.base_seed(),
-            "failing_clause": "C01/C02: values pass through the daemon by parse then print; strings must survive exactly, "
-                              "the printed text must be accepted and consumed entirely",
-            "what": what, "script": [src_line], "implementation": hl})
+            "failing_clause": clause or "C01/C02: values pass through the daemon by parse then print; strings must survive "
+                                        "exactly, every finite double bit for bit, the printed text must be accepted and "
+                                        "consumed entirely",
+            "what": what, "script": [src_line], "implementation": hl[:2000]})
 
 
 # --------------------------------------------------------------------------- entry point
@@ -727,6 +855,7 @@ def run_cjson_tie(ctx, out):
     import ext_cjson
     limit, nbuf, guard = ext_cjson.values(C.REPO)
     T.cov["cjson_nesting_limit"] = limit
+    T.limit = limit
     T.cov["cjson_obj_comma_guard_in_source"] = guard
 
     # 0. regression scenarios of repaired findings (a recurrence is an ordinary VIOLATION with that input)
@@ -890,6 +1019,7 @@ def run_cjson_tie(ctx, out):
         "cjson_disagreements": T.diffs,
         "cjson_sanitizer_reports": T.san,
         "cjson_outcome_histogram": dict(sorted(T.hist.items())),
+        "cjson_strict_json_texts_compared_with_reference_reader": T.ref_checked,
         "cjson_roundtrip_texts_checked": T.rt_checked,
         "cjson_roundtrip_numbers_not_bit_exact": T.rt_inexact_numbers,
         "cjson_roundtrip_nonfinite_numbers_printed_as_null": T.rt_null_numbers,
